@@ -290,6 +290,23 @@ CLAIMS = {
         "Trusted: Coq kernel; extraction + driver; the Python ast -> model adapter. Axioms: none.",
         "6 (C13)",
     ),
+    "C12": (
+        "Coq proofs over all abstract files of the decision table of _conform_filename (outside-target code unchanged, class "
+        "target replaced, idempotence when the lookup finds what is there) with refutation theorems for the cases the code gets "
+        "wrong, tied by comparing the table's prediction with the files after real `cdd sync` runs",
+        "C12_outside_unchanged (any behaviour of find_in_ast, any kind, any existing file), C12_created_equiv, "
+        "C12_class_target_equiv, C12_idempotent_partial are proved of Model/Sync.v; C12_function_target_refuted (an existing "
+        "function/argparse target that differs is left untouched), C12_created_wrong_name_refuted (a missing class file is written "
+        "under the truth's name), C12_missing_function_refuted (the command fails), C12_append_refuted (a missed lookup appends on "
+        "every run) state where the faithful table -- and the code -- violate the property (known findings). Each run performs 1..3 "
+        "`cdd sync` runs on generated file triples (targets different / equal / missing / empty, surrounded by unrelated "
+        "definitions and an import alias carrying the target's name) x 3 truth kinds, abstracts every file before and after and "
+        "requires the table's prediction to match (0 disagreements), and evaluates the property: truth unchanged, each target's "
+        "parsed interface equals the truth as that format renders it, other top-level code identical, later runs byte-identical. "
+        "find_in_ast and cmp_ast are observed, emit/parse are C02's: partial.",
+        "Trusted: Coq kernel; extraction + driver; harness abstraction of files. Axioms: none.",
+        "6 (C12)",
+    ),
 }
 
 NOT_YET = "check not built yet in this development (DESIGN.md section 8 gives the order of work)"
